@@ -9,7 +9,9 @@ SEEDED = os.path.join(VERIF, "seeded")
 tier = sys.argv[1] if len(sys.argv) > 1 and sys.argv[1] in ("quick", "thorough") else "quick"
 names = [a for a in sys.argv[1:] if a not in ("quick", "thorough")] or sorted(d for d in os.listdir(SEEDED) if os.path.isdir(os.path.join(SEEDED, d)))
 EXTRA = {"C01-3": ["C12"], "C10-3": ["C12"], "C07-1": ["C04"], "C17-1": ["C02"], "C17-2": ["C03", "C02"], "C18-1": ["C01"], "C18-3": ["C01"],
-         "C02-3": ["C03", "C17"], "C12-1": ["C10"], "C20-3": ["C18"], "C14-3": ["C12"]}
+         "C02-3": ["C03", "C17"], "C12-1": ["C10"], "C20-3": ["C18"], "C14-3": ["C12"],
+         "C01-6": ["C12", "C09"], "C04-6": ["C12", "C09"], "C18-6": ["C12"], "C07-4": ["C12"], "C09-5": ["C12"], "C18-4": ["C03", "C01"],
+         "C04-4": ["C07", "C03"], "C07-5": ["C04"], "C13-5": ["C09"], "C10-5": ["C12"], "C01-4": ["C18"]}
 
 
 def run(name):
